@@ -304,6 +304,34 @@ def cond_facts(cx, s, truth, depth=0):
             if truth:
                 return [(Lin({a: 1}), "==")]
             return [(Lin({a: 1}, -1), ">=")]
+    if t in ("var", "tmp") and depth < 4:
+        # a boolean that was given a name (`let fits = a < M && b <= N; if !fits { return .. }`): MIR assigns it `false` on the edge
+        # where the first conjunct fails and the value of the second conjunct otherwise.  For the value asked for, the assignments of
+        # the opposite constant are ruled out; if one assignment remains, its value has that truth and the branch conditions that
+        # dominate it held when it ran.
+        B = cx.B
+        l = s[2] if t == "var" else s[1]
+        if (B.local_ty(l) or "") == "bool":
+            cands = []
+            for (bi, si, node) in B.defs().get(l, []):
+                if si == "term":
+                    cands.append((bi, None))
+                    continue
+                rv = node["rv"]
+                if rv["k"] == "use" and rv["a"]["k"] == "const" and isinstance(rv["a"].get("val"), bool):
+                    if rv["a"]["val"] == truth:
+                        cands.append((bi, "const"))
+                    continue
+                cands.append((bi, B.sym_rv(rv, through_vars="pure")))
+            if len(cands) == 1 and cands[0][1] not in (None, "const"):
+                bi, sym = cands[0]
+                out = cond_facts(cx, sym, truth, depth + 1)
+                try:
+                    fs, _ = edge_facts(B, cx, bi, _depth=depth + 1)
+                    out = out + fs
+                except RecursionError:
+                    pass
+                return out
     return []
 
 
